@@ -23,6 +23,8 @@ CLASS_FIELDS = {
     "HRGView": {"_node_labels": "dict[str,NodeLabel]", "_edge_labels": "dict[str,EdgeLabel]", "_rule_seq": "seq[RuleV]"},
     # an HRG as far as its label tables go; the rule table (dict of lists of mutable rules) is opaque
     "HRGLabels": {"_node_labels": "dict[str,NodeLabel]", "_edge_labels": "dict[str,EdgeLabel]", "_rules": "opaque"},
+    # an HRG with its rule table, the rules being immutable snapshots (RuleV): all_rules / rules are verified on this view
+    "HRGTable": {"_node_labels": "dict[str,NodeLabel]", "_edge_labels": "dict[str,EdgeLabel]", "_rules": "dict[EdgeLabel,seq[RuleV]]"},
     # an HRG as far as its start symbol goes
     "HRGStart": {"_start": "EdgeLabel"},
     "FiniteDomain": {"values": "list[PyVal]", "_value_index": "dict[PyVal,int]"},
@@ -30,7 +32,7 @@ CLASS_FIELDS = {
 }
 
 # concrete class used for method resolution when the static type is one of the pseudo classes above
-RESOLVE_AS = {"LabelTable": "Graph", "Interp": "FactorGraph", "HRGView": "HRG", "HRGLabels": "HRG", "HRGStart": "HRG"}
+RESOLVE_AS = {"LabelTable": "Graph", "Interp": "FactorGraph", "HRGView": "HRG", "HRGLabels": "HRG", "HRGStart": "HRG", "HRGTable": "HRG"}
 
 
 def check_schema(program) -> list:
